@@ -205,7 +205,13 @@ func WithTxReadClosers(ctx context.Context, db Database, opts *sql.TxOptions, fn
 	}
 
 	for i := range readers {
+		// Closing the same reader more than once must release its share of
+		// the transaction only once.
+		var closed atomic.Bool
 		readers[i] = ioutils.NewReadCloserWithCloseHook(readers[i], func() error {
+			if !closed.CompareAndSwap(false, true) {
+				return nil
+			}
 			if atomic.AddInt64(&remaining, -1) == 0 {
 				return tx.Rollback(ctx)
 			}
